@@ -54,8 +54,8 @@ def main(tier):
         return out
     if tier == 'quick':
         for T in (1, 2, 3, 4):
-            add_consensus(T, 3, taxo.forests(T), 120)
-        add_consensus(5, 3, taxo.forests(5), 200)
+            add_consensus(T, 4, taxo.forests(T), 200)
+        add_consensus(5, 4, taxo.forests(5), 400)
         for T in (1, 2, 3, 4):
             add_strict(T, 3, taxo.forests(T), 300, pats_thorough if T <= 3 else pats_quick)
     else:
@@ -70,7 +70,7 @@ def main(tier):
     jobs.sort(key=lambda j: -j['timeout'])
     xprop.run_jobs(run, jobs, rung=tier, key_of=key_of)
     xprop.note_sources(run, ['src/gambit/classify.py', 'src/gambit/db/models.py'])
-    run.bounds = {'quick': 'consensus: all forests <= 5 taxa x every sequence of 3 matched taxa; strict classify: all forests <= 4 taxa x 3 genomes',
+    run.bounds = {'quick': 'consensus: all forests <= 5 taxa x every sequence of 4 matched taxa; strict classify: all forests <= 4 taxa x 3 genomes',
                   'thorough': 'consensus: all forests <= 5 taxa x sequences of 4, all 48 six-taxon forests x sequences of 3; strict classify: all forests <= 4 taxa x 3 genomes x 3 threshold patterns, all 20 five-taxon forests x 3 genomes, all four-taxon forests x 4 genomes'}
     run.stubs = ['numpy.argmin -> first minimum']
     run.outside = ['forests / match counts beyond the bounds', 'the text of the warning message (only its presence is checked)',
